@@ -656,6 +656,28 @@ theorem defs_match_replay_add_cds_step_partial (len : Int) (ops : List Op) (r r'
     hok.inside a (by simp only [opsAreas, List.flatMap_append, List.mem_append]; exact Or.inl ha)
   exact addCds_defs_match inv hin g (hok.opOK (.cds g) (by simp)) hstep x
 
+/-- the definition sets after **any** history — adding, clearing with re-created regions, observing, and genes
+    re-annotated at any time — are exactly what the spec's replay says: a (protocluster, gene) pair is defining iff
+    at some meeting of the gene and a collection tree containing the protocluster (a new gene, a new collection, a
+    region re-created by a clearing call) the gene lay inside the tree's root, the protocluster and its core and
+    carried a core annotation for the product at that moment.  (The full statement announced in
+    `defs_match_replay_add_cds_step_partial`, now proved.) -/
+theorem definitions_match_replay (len : Int) (ops : List Op) (r : Rec) (hok : HistoryOK ops)
+    (hrun : runLoose len ops = .ok r) (x : Nat × Nat) : x ∈ r.defs ↔ x ∈ specDefsAfter ops :=
+  runLoose_defs hok.opOK hok.inside hrun x
+
+/-- … in particular for the strict histories: `run` and `runLoose` agree wherever `run` goes through -/
+theorem definitions_match_replay_strict (len : Int) (ops : List Op) (r : Rec) (hok : HistoryOK ops)
+    (hrun : run len ops = .ok r) (aid gid : Nat) :
+    gid ∈ r.definition aid ↔ (aid, gid) ∈ specDefsAfter ops := by
+  rw [mem_definition]
+  exact definitions_match_replay len ops r hok (runLoose_of_run hrun) (aid, gid)
+
+/-- `run` is `runLoose` restricted: every strict history is a loose one with the same result -/
+theorem strict_histories_are_loose (len : Int) (ops : List Op) (r : Rec) (hrun : run len ops = .ok r) :
+    runLoose len ops = .ok r :=
+  runLoose_of_run hrun
+
 /-! ### 9  build-order independence (histories of adding calls) -/
 
 /-- any two orderings of the same adding calls (genes before areas, after them, or interleaved in any way)
